@@ -705,7 +705,8 @@ def g_FraunhoferPropagator(rng):
 
 
 def g_AbelTransform(rng):
-    return [{"shape": s} for s in ([3, 3], [4, 4], [5, 3], [3, 5], [4, 6], [3, 4], [6, 5])]
+    # (PyAbel's own Transform, the numpy reference, needs at least 3 rows)
+    return [{"shape": s} for s in ([3, 3], [4, 4], [5, 3], [3, 5], [4, 6], [3, 4], [6, 5], [3, 1], [3, 2], [4, 7], [7, 2], [5, 8])]
 
 
 def g_SingleAxisFiniteSum(rng):
